@@ -306,6 +306,42 @@ def _scan(ctx, u, f, name, algo, role):
             elif render(t) == pred_entry and any(lin_cmp(fa, '!=', first_lin) for fa in fs):
                 other = True
         ok = cur_ok and dflt and other and len(alts) == 2
+        if not ok and cur_ok and len(alts) == 1 and role == 'upper':
+            # the type in force before the candidate may be carried through the scan in a local of its own: it starts as
+            # (default type when the candidate is the first real entry, else the type of the entry before it) and every
+            # iteration hands it the candidate's own type before the candidate moves on by one
+            t0 = alts[0][1]
+            S2 = None
+            if t0[0] in ('int', 'key'):
+                names = [k_ for k_ in (t0[2] if t0[0] == 'int' else {t0[2]: 1}) if k_ in sv.loops]
+                if len(names) == 1 and (t0[2] == {names[0]: 1} if t0[0] == 'int' else True):
+                    S2 = names[0]
+            if S2 is not None and sv.loops[S2]['node'] is sv.loops[Lsym]['node']:
+                i2 = sv.loops[S2]
+                d0 = o0 = False
+                first0 = ladd_({'U': 1}, bl, -1)
+                for (gd, t) in (i2['init'] or ()):
+                    fs = sv.facts(gd)
+                    if render(t) == 'this.default_transition_type_' and any(lin_cmp(fa, '==', first0) for fa in fs):
+                        d0 = True
+                    elif render(t) == '%s[%s].type_index' % (base, lin_str({'U': 1, '': -1})) and any(lin_cmp(fa, '!=', first0) for fa in fs):
+                        o0 = True
+                carried = True
+                n_back = 0
+                for (p, lab) in i2['node'].preds:
+                    st_ = sv.after.get(p.id)
+                    if st_ is None or sv.at.get(p.id) is None:
+                        continue
+                    tc = single(st_['vals'].get(sv.loops[Lsym]['var']) or ())
+                    tv = single(st_['vals'].get(i2['var']) or ())
+                    if tc is None or tc[2].get(Lsym) != 1 or tc[2] == {Lsym: 1}:
+                        continue        # (not a back edge of the scan)
+                    n_back += 1
+                    if not (tc[2] == {Lsym: 1, '': 1} and tv is not None and render(tv) == '%s[%s].type_index' % (base, lin_str({Lsym: 1}))):
+                        carried = False
+                if d0 and o0 and len(i2['init'] or ()) == 2 and carried and n_back >= 1:
+                    ok = True
+                    got.append('carried through the scan in a local: starts as default / predecessor type, updated to the candidate\'s type each step')
         ctx.check(ok, 'C11-sib', '%s: filter compares the candidate entry with its predecessor (default type before the first)' % short,
                   eqc[0], 'the no-op filter does not compare the candidate entry (the %s) with the type in force just before it '
                   '(default_transition_type_ when the candidate is the first real entry): current=%s, previous=%s' % (
@@ -330,8 +366,14 @@ def _scan(ctx, u, f, name, algo, role):
     lim = ladd_({Lsym: 1}, {size: 1}, -1) if role == 'upper' else ladd_({Lsym: 1}, bl, -1)
     for rn in g.returns:
         fs = sv.facts(sv.conds_at(rn))
+        # the cursor as it stands at this return (it may have been stepped inside the iteration that found the end)
+        lims = [lim]
+        st_here = sv.at.get(rn.id)
+        cur_t = single((st_here or {}).get('vals', {}).get(sv.loops[Lsym]['var']) or ()) if st_here else None
+        if cur_t is not None and cur_t[0] in ('ptr', 'int') and cur_t[2].get(Lsym) == 1:
+            lims.append(ladd_(cur_t[2], {size: 1}, -1) if role == 'upper' else ladd_(cur_t[2], bl, -1))
         # (a pointer scan leaves with cursor == end; a counted scan with !(i < size), i.e. size <= i, resp. i <= first)
-        if any(lin_cmp(fa, '==', lim) or lin_cmp(fa, '>=' if role == 'upper' else '<=', lim) for fa in fs):
+        if any(lin_cmp(fa, '==', l_) or lin_cmp(fa, '>=' if role == 'upper' else '<=', l_) for fa in fs for l_ in lims):
             rk = keys.key(kids(rn.ast)[0])
             endk = rk
             ctx.check(rk == 'n:0', 'C11-bound', '%s: exhausted search answers false' % short, rn.ast,
